@@ -22,6 +22,7 @@ def _linearize(assertions, ctx):
     fi = z3.Function("nlmul_i", I, I, I)
     fd = z3.Function("nldiv_r", R, R, R)
     cache = {}
+    pairs = []
 
     def numeral(e):
         return z3.is_rational_value(e) or z3.is_int_value(e)
@@ -43,6 +44,7 @@ def _linearize(assertions, ctx):
                 f = fr if rest[0].sort() == R else fi
                 acc = rest[0]
                 for a in rest[1:]:
+                    pairs.append((f, acc, a))
                     acc = f(acc, a)
                 for n in nums:
                     acc = n * acc
@@ -58,7 +60,16 @@ def _linearize(assertions, ctx):
                 r = e
         cache[k] = r
         return r
-    return [walk(a) for a in assertions]
+    out = [walk(a) for a in assertions]
+    # multiplication is commutative: the abstraction says so for every product it introduced (the operand order chosen
+    # above is by term id, which is not stable under the equalities the hypotheses state)
+    seen = set()
+    for f, a, b in pairs:
+        k = (a.get_id(), b.get_id())
+        if k not in seen:
+            seen.add(k)
+            out.append(f(a, b) == f(b, a))
+    return out
 
 
 def _purify(assertions, ctx):
@@ -126,7 +137,7 @@ def _solve_one(task):
     import z3
     t0 = time.time()
     out = dict(name=name, verdict="unknown", backend=None, time=0.0, model=None, detail="")
-    stages = [("z3-linearized", {"linearize": True}, min(timeout_s, 1.0)),
+    stages = [("z3-linearized", {"linearize": True}, min(timeout_s, 6.0)),
               ("z3-nlsat", {"nlsat": True}, min(timeout_s, 5.0)),
               ("z3", {}, min(timeout_s, 4.0)), ("z3-arith2", {"smt.arith.solver": 2}, min(timeout_s, 6.0))]
     if timeout_s > 4.0:
@@ -160,6 +171,16 @@ def _solve_one(task):
         if r == "unsat":
             out["verdict"], out["backend"] = "unsat", pb
             done = True
+    if not done and ("(* " in smt2 or "(/ " in smt2):
+        for suffix, text in texts:
+            try:
+                r = _stage(z3, "z3-linearized", {"linearize": True}, min(timeout_s, 3.0), text, False, out)
+            except Exception:
+                r = None
+            if r == "unsat":
+                out["verdict"], out["backend"] = "unsat", "z3-linearized-%s%s" % (z3.get_version_string(), suffix)
+                done = True
+                break
     if cli and not done:
         # two passes: a short budget on every hypothesis set first (a set that lacks a needed hypothesis must not
         # burn the whole budget before the full set is tried), then the longer one
